@@ -21,13 +21,15 @@ Definition in_nodes (x : N * option N) (l : list (N * option N)) : bool :=
   existsb (fun y => N.eqb (fst x) (fst y) && oeqb (snd x) (snd y)) l.
 Definition in_edges (x : N * N * N) (l : list (N * N * N)) : bool :=
   existsb (fun y => N.eqb (fst (fst x)) (fst (fst y)) && N.eqb (snd (fst x)) (snd (fst y)) && N.eqb (snd x) (snd y)) l.
-(** the two images are equal as sets *)
-Definition same_image (rc : graph) (m m' : mapping) : bool :=
-  forallb (fun x => in_nodes x (image_nodes rc m')) (image_nodes rc m) &&
-  forallb (fun x => in_nodes x (image_nodes rc m)) (image_nodes rc m') &&
-  forallb (fun x => in_edges x (image_edges rc m')) (image_edges rc m) &&
-  forallb (fun x => in_edges x (image_edges rc m)) (image_edges rc m').
-(** every raw match has the image of some kept match (the computed form of C11_prune_same_images) *)
+(** the labelled image of a match, and equality of two images as sets *)
+Definition image_t := (list (N * option N) * list (N * N * N))%type.
+Definition img (rc : graph) (m : mapping) : image_t := (image_nodes rc m, image_edges rc m).
+Definition same_img (a b : image_t) : bool :=
+  forallb (fun x => in_nodes x (fst b)) (fst a) && forallb (fun x => in_nodes x (fst a)) (fst b) &&
+  forallb (fun x => in_edges x (snd b)) (snd a) && forallb (fun x => in_edges x (snd a)) (snd b).
+Definition same_image (rc : graph) (m m' : mapping) : bool := same_img (img rc m) (img rc m').
+(** every raw match has the image of some kept match (the computed form of C11_prune_same_images); the images of the
+    kept matches are computed once *)
 Definition images_ok (rc : graph) (raw : list mapping) : bool :=
-  let kept := prune (fun m : mapping => m) rc raw in
-  forallb (fun x => existsb (fun y => same_image rc x y) kept) raw.
+  let kept := map (img rc) (prune (fun m : mapping => m) rc raw) in
+  forallb (fun x => let ix := img rc x in existsb (same_img ix) kept) raw.
